@@ -7,6 +7,7 @@ import (
 
 	"github.com/lugu/qiloop/bus"
 	"github.com/lugu/qiloop/bus/directory"
+	qinet "github.com/lugu/qiloop/bus/net"
 	"github.com/lugu/qiloop/bus/services"
 	"github.com/lugu/qiloop/bus/session"
 	"github.com/lugu/qiloop/type/object"
@@ -27,7 +28,7 @@ type world struct {
 // start: a directory on tcp://sd, a second server on tcp://b hosting the
 // probe service (and a third on tcp://c hosting another one), and the session
 // under test.
-func start(twoHosts bool) *world {
+func start(twoHosts bool, multi ...bool) *world {
 	if _, err := directory.NewServer("tcp://sd", bus.Yes{}); err != nil {
 		panic(err)
 	}
@@ -37,7 +38,22 @@ func start(twoHosts bool) *world {
 		if err != nil {
 			panic(fmt.Sprintf("host session: %v", err))
 		}
-		srv, err := services.NewServer(s, addr, bus.Yes{})
+		var srv bus.Server
+		if len(multi) > 0 && multi[0] {
+			// the service is advertised with three addresses: a test-range
+			// address (never dialled), one nobody listens on, the real one
+			l, lerr := qinet.Listen(addr)
+			if lerr != nil {
+				panic(fmt.Sprintf("host listen: %v", lerr))
+			}
+			ns, nerr := services.Namespace(s, []string{"tcp://198.18.0.1:9559", "tcp://nobody-" + name, addr})
+			if nerr != nil {
+				panic(fmt.Sprintf("host namespace: %v", nerr))
+			}
+			srv, err = bus.StandAloneServer(l, bus.Yes{}, ns)
+		} else {
+			srv, err = services.NewServer(s, addr, bus.Yes{})
+		}
 		if err != nil {
 			panic(fmt.Sprintf("host server: %v", err))
 		}
@@ -79,7 +95,7 @@ type req struct {
 	ok      bool
 }
 
-func body(services_ []string, fine bool) func() {
+func body(services_ []string, fine bool, multi ...bool) func() {
 	return func() {
 		twoHosts := false
 		for _, s := range services_ {
@@ -87,7 +103,7 @@ func body(services_ []string, fine bool) func() {
 				twoHosts = true
 			}
 		}
-		w := start(twoHosts)
+		w := start(twoHosts, multi...)
 		vrt.Explore()
 		vrt.SetFine(fine)
 		var reqs []*req
@@ -247,6 +263,8 @@ func init() {
 		Doc: "the pooled connection to an endpoint is closed by the remote side (before, or while, two goroutines request proxies): the session dials again, the requests succeed and share one connection", MustFlag: []string{"dialled-again:tcp://b"}})
 	reg.Register(&reg.Scenario{Property: "C19", Name: "two-same-endpoint", Body: body([]string{"Probe", "Probe"}, false), Quick: 1, Thorough: 2,
 		Doc: "two goroutines request a proxy to the same not-yet-connected service and call it", MustFlag: []string{"dialled-twice:tcp://b"}})
+	reg.Register(&reg.Scenario{Property: "C19", Name: "two-same-endpoint-several-addresses", Body: body([]string{"Probe", "Probe-by-reference"}, false, true), Quick: 1, Thorough: 2,
+		Doc: "Proxy(Probe) || Object(reference to Probe) for a service advertised with three addresses (a test-range one, one nobody listens on, the real one)", MustFlag: []string{"dialled-twice:tcp://b"}})
 	reg.Register(&reg.Scenario{Property: "C19", Name: "two-shared-connection", Body: body([]string{"ServiceDirectory", "ServiceDirectory"}, false), Quick: 2, Thorough: 3,
 		Doc: "two goroutines request a proxy over the session's existing directory connection and call it (shared client)"})
 	reg.Register(&reg.Scenario{Property: "C19", Name: "proxy-and-object-reference", Body: body([]string{"Probe", "Probe-by-reference"}, false), Quick: 1, Thorough: 2,
